@@ -698,6 +698,25 @@ func (g *Gen) evalCall(x *ECall, env *Env) Val {
 		return g.eval(x.Args[i], env)
 	}
 	switch x.Fn {
+	case "witn":
+		// witn(k, e): like wit(e) but in its own family k, so that multi-variable existentials can be given one
+		// candidate per variable instead of the product of all candidates
+		kv := arg(0)
+		v := arg(1)
+		if v.K == kUntyped {
+			v = g.coerce(v, intT)
+		}
+		if kv.K != kUntyped {
+			panic(contractErr("witn: first argument must be a literal"))
+		}
+		name := fmt.Sprintf("wit%s_fam", kv.C.String())
+		if !g.declared[name] {
+			g.declared[name] = true
+			s := g.scalarSort(v.T)
+			g.emit(evDecl, fmt.Sprintf("(declare-fun %s (%s) Bool)", name, s))
+			g.emit(evAssert, fmt.Sprintf("(assert (forall ((x %s)) (! (%s x) :pattern ((%s x)) :qid %s_ax)))", s, name, name, name))
+		}
+		return sv(boolT, "("+name+" "+v.S+")")
 	case "wit":
 		// wit(e) is true for every e; it exists to be used as a quantifier trigger / to supply ground instances
 		v := arg(0)
